@@ -23,7 +23,8 @@ type C01Plan struct {
 	After    [][]world.Key `json:"after"`  // ... and listed after the matching one
 	Delivery seam.Delivery `json:"delivery"`
 	Reads    lib.ReadSched `json:"reads"`
-	Via      int           `json:"via,omitempty"` // 0: keys through the constructors; 1..3: through the text parsers (key files with comments / CRLF / no final newline, authorized_keys lines, PEM)
+	Warm     int           `json:"warm,omitempty"` // the identity objects first decrypt this many OTHER files to the same recipients (long-lived objects)
+	Via      int           `json:"via,omitempty"`  // 0: keys through the constructors; 1..3: through the text parsers (key files with comments / CRLF / no final newline, authorized_keys lines, PEM)
 }
 
 type C01 struct{}
@@ -48,7 +49,7 @@ func (C01) Meta() core.Meta {
 		Real:        []string{"filippo.io/age Encrypt/Decrypt", "X25519/scrypt/ssh-ed25519/ssh-rsa recipients and identities", "armor", "internal/stream", "internal/format", "age.ParseRecipients / ParseIdentities, agessh.ParseRecipient / ParseIdentity (a third of the runs)"},
 		Stub:        []string{"destination recorder", "source with delivery schedule", "grease recipient", "logging identity wrapper", "crypto/rand.Reader (tape)"},
 		FaultKinds:  []string{},
-		Probes:      []string{"probe.mixed_types", "probe.duplicate_recipient", "probe.grease_stanza", "probe.scrypt", "probe.rsa", "probe.armor", "probe.len_on_chunk_boundary", "probe.nonmatching_before", "probe.nonmatching_after", "probe.multi_chunk", "probe.keys_through_text_parsers"},
+		Probes:      []string{"probe.mixed_types", "probe.duplicate_recipient", "probe.grease_stanza", "probe.scrypt", "probe.rsa", "probe.armor", "probe.len_on_chunk_boundary", "probe.nonmatching_before", "probe.nonmatching_after", "probe.multi_chunk", "probe.keys_through_text_parsers", "probe.identity_objects_reused_across_files"},
 	}
 }
 
@@ -97,6 +98,9 @@ func (C01) Generate(r *core.RNG, tier string, idx uint64) interface{} {
 	if r.Chance(1, 3) {
 		p.Via = r.Range(1, 3)
 	}
+	if r.Chance(1, 4) {
+		p.Warm = r.Range(1, 2)
+	}
 	return p
 }
 
@@ -118,6 +122,11 @@ func (C01) Shrinks(plan interface{}) []interface{} {
 	if p.Via != 0 {
 		q := cp()
 		q.Via = 0
+		out = append(out, q)
+	}
+	if p.Warm != 0 {
+		q := cp()
+		q.Warm = 0
 		out = append(out, q)
 	}
 	// drop a recipient (and its identity lists)
@@ -283,6 +292,17 @@ func (e C01) Execute(plan interface{}, c *core.Ctx) (verdict *core.Verdict) {
 		}
 		if len(after) > 0 {
 			c.Stats.Inc("probe.nonmatching_after")
+		}
+		for wj := 0; wj < p.Warm; wj++ {
+			ws := p.File
+			ws.PSeed, ws.Tape, ws.PLen, ws.Armor = ws.PSeed+uint64(wj)+1, ws.Tape+uint64(wj)+1, 33, false
+			wimg, _ := lib.MustEncrypt(ws)
+			wr := lib.Decrypt(seam.NewSource(wimg, seam.Delivery{Mode: "whole"}, nil, nil).Reader(), false, ids, lib.ReadSched{Mode: "all"}, nil)
+			if !wr.Clean() || !bytes.Equal(wr.Released, ws.Plain()) {
+				return core.Fail("C01.decrypt_failed", "identity list of listed recipient #%d (%s), used for file %d of a sequence to the same recipients %s: %s", i, k, wj, p.File.Skeleton(), wr.ErrText())
+			}
+			trace = nil
+			c.Stats.Inc("probe.identity_objects_reused_across_files")
 		}
 		src := seam.NewSource(d.Data, p.Delivery, nil, nil)
 		dr := lib.Decrypt(src.Reader(), p.File.Armor, ids, p.Reads, nil)
